@@ -392,7 +392,7 @@ check("C06", "exploration",
       "cross-shard randomness over real gateways for 2,3,5 shards (identical on all shards of a helper, matching the neighbours, "
       "different from per-shard randomness); the debug duplicate-(step,index) monitor stays silent over attribution queries with and "
       "without padding, both modes, 1-2 shards (and, through the shared panic hook, over every other check's runs). "
-      "distinct_nontrivial = distinct 128-bit values observed.",
+      "distinct_nontrivial = distinct 128-bit values observed. Sequential vs indexed: the first 64 words of the sequential stream of 3 gates against both halves of the indexed values 0..64 of 8 children (incl. the names the generator code uses) and a sibling of each; indices wider than 32 bits (2^32, 2^32+5, 2^63+5, ... u128::MAX) must be refused or must not alias a small index.",
       [{"name": "prss", "config": "A", "test": "verif::c06::run", "timeout": {"quick": 900, "thorough": 3600},
         "require": {"any": {"prss_values_compared": 100000, "cross_shard_points": 40, "protocol_runs_monitored": 5}}}],
       assumptions=["pseudo-randomness of AES/HKDF is assumed; 'unrelated' is checked as pairwise distinctness over the alphabet",
